@@ -14,35 +14,42 @@
   counts matter to the receiver), and NO synchronisation between the two sides is assumed: the receiver
   enforces it by not listening.
 
-  Proved at full strength for the left side cached, every `nL, nR ≥ 1`, every contract-respecting history:
-    cache_replayed_each_round        every round closed by a `FlushAndRestart` presents the cached side
-                                     (its data elements and its End marker, in order) exactly as round 1;
-    cache_not_replayed_after_loop_end  when the run has returned `Terminate`, the output ends
-                                     `… FlushAndRestart, Terminate` — nothing of the cached side (nothing at
-                                     all) after the last `FlushAndRestart` (`c11Ok`);
-    end_marker_once_each_round       every closed round contains the cached side's End marker exactly once;
-    contract_never_panics            no counter of `process_side` underflows;
-    cache_read_once, cached_terminate_once, cache_frozen_partial, cache_replayed_each_round_partial
-                                     (state-level facts that hold for EVERY history, contract or not);
-    bstart_nocache_conserves         (C09, no cache).
-  Proof: an invariant over the whole state (Lemmas/BinaryStart.lean `InvC`: phases round 1 / waiting for
-  the first loop-side batch / replaying + rest of a later round / terminating / terminated, relating the
-  receiver's counters, `Start`'s counters, the cache, the contract state of what is still queued or to be
-  sent, and the shape of the output so far), preserved by every `select` + `Start` step (`inv_select`),
-  lifted over pulls and histories (`pump_inv`, `runFrom_inv`).
+  Every theorem about runs is also quantified over an oracle `ch : Nat → Bool` that resolves the one
+  unspecified point of the implementation: which channel a `select` over BOTH channels takes when both are
+  non-empty (`ch k` = take the left one at the k-th such `select`). So no assumption about that choice
+  (formerly the `ambiguous` guard) is left.
 
-  Still `_partial` / not mechanised:
-    * the mirror image (RIGHT side cached): the model is not symmetric (branch order of `select`), the
-      proof would be a second copy of the invariant; covered by the examples below and by the
-      correspondence check (half of the generated cached cases). Note that the old unconditional
-      `cache_read_once_right` is false for the new code outside the contract (a loop-side batch
-      `[…, FlushAndRestart, Terminate]` makes 6c83288 skip the replay and the receiver then listens to the
-      terminated cached side), so it was removed rather than kept with a false statement;
-    * when both channels are non-empty at a `select` over both, the model takes the left one; the real
-      choice is unspecified (the theorems are about the model's choice; the generator never creates the
-      situation, tag `ambiguous`).
-  Findings F6 / F6b (cache replayed after the loop ended) are fixed; their witnesses are the first
-  `example`s below and the first cases of every correspondence run.
+  Proved at full strength, for the LEFT side cached (`contractL`) and for the RIGHT side cached
+  (`contractR`, theorems `…_right`), every `nL, nR ≥ 1`, every contract-respecting history, every `ch`:
+    cache_replayed_each_round[_right]        every round closed by a `FlushAndRestart` presents the cached
+                                             side (its data elements and its End marker, in order) exactly
+                                             as round 1;
+    end_marker_once_each_round[_right]       every closed round contains the cached side's End marker once;
+    cache_not_replayed_after_loop_end[_right]  when the run has returned `Terminate`, the output ends
+                                             `… FlushAndRestart, Terminate` — nothing of the cached side
+                                             (nothing at all) after the last `FlushAndRestart` (`c11Ok`);
+    contract_never_panics[_right]            no counter of `process_side` underflows;
+  and for EVERY history (contract or not): cache_read_once, cached_terminate_once, cache_frozen_partial,
+  cache_replayed_each_round_partial; bstart_nocache_conserves (C09, no cache).
+
+  Proof, left: an invariant over the whole state (Lemmas/BinaryStart.lean `InvC`: phases round 1 / waiting
+  for the first loop-side batch / replaying + rest of a later round / terminating / terminated, relating
+  the receiver's counters, `Start`'s counters and pending watermark, the cache, the contract state of what
+  is still queued or to be sent, and the shape of the output so far), preserved by every `select` + `Start`
+  step for either resolution of the choice (`inv_select`), lifted over pulls and histories (`pump_inv`,
+  `runFrom_inv`). Right: NOT a second copy — the model commutes with the exchange of the two sides
+  (`State.swap`, `swapOp`, `swapEl`: `select_swap`, `pump_swap`, `runFrom_swap`, with the oracle flipped)
+  along every run that satisfies the left invariant; the one asymmetric point of `select` (which side is
+  asked first when BOTH sides have ended at the plain-receive branch) is never reached there (`inv_sym`);
+  sender indices are kept by carrying the sides' replica offsets in the state.
+
+  Nothing of C11 stays `_partial` except the two state-level facts that are named so because they are
+  steps of the argument rather than the property (`cache_frozen_partial`,
+  `cache_replayed_each_round_partial`). The old unconditional `cache_read_once_right` is false for the new
+  code outside the contract (a loop-side batch `[…, FlushAndRestart, Terminate]` makes 6c83288 skip the
+  replay and the receiver then listens to the terminated cached side) and stays removed.
+  Findings F6 / F6b (cache replayed after the loop ended) are fixed; their witnesses are `example`s below
+  and the first cases of every correspondence run.
 -/
 import NoirVerif.Lemmas.BinaryStart
 namespace Noir.BinaryStart
@@ -53,72 +60,73 @@ variable {α : Type}
     all its `Terminate`s, whatever history follows (any batches on either channel, any pulls), the
     left channel only grows: nothing is ever received from it again. -/
 theorem cache_read_once (st : State α) (hc : st.left.cached = true) (ht : st.left.missingTerm = 0)
-    (i : Nat) (ops : List (Op α)) :
-    ∃ added, (runFrom st i ops).1.qL = st.qL ++ added := by
-  obtain ⟨a, h⟩ := runFrom_leftDone ops st i st.qL ⟨hc, ht, rfl⟩
+    (ch : Nat → Bool) (i : Nat) (ops : List (Op α)) :
+    ∃ added, (runFrom ch st i ops).1.qL = st.qL ++ added := by
+  obtain ⟨a, h⟩ := runFrom_leftDone (ch := ch) ops st i st.qL ⟨hc, ht, rfl⟩
   exact ⟨a, h.queue⟩
 
 /-- **C11 (identical content in every round).** Left side cached, any `nL, nR ≥ 1`, any
     contract-respecting history (any interleaving of the two sides, any receive timeouts, complete or
-    not): every round of the output that has been closed by a `FlushAndRestart` presents the cached
-    side — its data elements and its End marker, in order — exactly as the first round does. -/
-theorem cache_replayed_each_round (nL nR : Nat) (ops : List (Op α)) (hc : contractL nL nR ops = true) :
-    ∀ r ∈ (splitRounds (run nL nR true false ops).1).1,
-      presented true r = presented true ((splitRounds (run nL nR true false ops).1).1.headD []) := by
-  obtain ⟨P, rs, cur, h1, h2, _, _, h3⟩ := run_shaped nL nR ops hc
-  have hsplit : (splitRounds (run nL nR true false ops).1).1 = rs := by
-    rcases h3 with ⟨e1, e2, _⟩ | ⟨e1, _, _⟩
-    · rw [e1, splitRounds_shape rs h1 cur (fun e he => by have := e2 e he; simp [plainE] at this; exact this.1)]
-    · rw [e1, splitRounds_shape rs h1 [Elem.term] (fun e he => by simp at he; subst he; rfl)]
-  rw [hsplit]
-  intro r hr
-  rw [h2 r hr]
-  cases rs with
-  | nil => simp at hr
-  | cons r1 _ => exact (h2 r1 (by simp)).symm
+    not), any resolution `ch` of the unspecified choice of a two-sided `select`: every round of the
+    output that has been closed by a `FlushAndRestart` presents the cached side — its data elements
+    and its End marker, in order — exactly as the first round does. -/
+theorem cache_replayed_each_round (ch : Nat → Bool) (nL nR : Nat) (ops : List (Op α))
+    (hc : contractL nL nR ops = true) :
+    ∀ r ∈ (splitRounds (run ch nL nR true false ops).1).1,
+      presented true r = presented true ((splitRounds (run ch nL nR true false ops).1).1.headD []) :=
+  shaped_rounds_equal (run_shaped nL nR ops hc)
 
 /-- **C11 (End marker once per round).** Same quantifier: every closed round contains the cached side's
     End marker (`LeftEnd`) exactly once. -/
-theorem end_marker_once_each_round (nL nR : Nat) (ops : List (Op α)) (hc : contractL nL nR ops = true) :
-    ∀ r ∈ (splitRounds (run nL nR true false ops).1).1, markers r = 1 := by
-  obtain ⟨P, rs, cur, h1, h2, hm, _, h3⟩ := run_shaped nL nR ops hc
-  have hsplit : (splitRounds (run nL nR true false ops).1).1 = rs := by
-    rcases h3 with ⟨e1, e2, _⟩ | ⟨e1, _, _⟩
-    · rw [e1, splitRounds_shape rs h1 cur (fun e he => by have := e2 e he; simp [plainE] at this; exact this.1)]
-    · rw [e1, splitRounds_shape rs h1 [Elem.term] (fun e he => by simp at he; subst he; rfl)]
-  rw [hsplit]
-  intro r hr
-  rw [← markers_presented, h2 r hr]
-  exact hm (List.ne_nil_of_mem hr)
+theorem end_marker_once_each_round (ch : Nat → Bool) (nL nR : Nat) (ops : List (Op α))
+    (hc : contractL nL nR ops = true) :
+    ∀ r ∈ (splitRounds (run ch nL nR true false ops).1).1, markers r = 1 :=
+  shaped_marker_once (run_shaped nL nR ops hc) markers_presented
 
 /-- **C11 (nothing after the loop has ended).** Same quantifier; when the run has returned `Terminate`:
     what follows the last `FlushAndRestart` is `Terminate` alone, and the whole output satisfies the
     C11 recogniser (all rounds alike, nothing of the cached side after the last `FlushAndRestart`). -/
-theorem cache_not_replayed_after_loop_end [DecidableEq α] (nL nR : Nat) (ops : List (Op α))
-    (hc : contractL nL nR ops = true) (hd : (run nL nR true false ops).2 = .done) :
-    (splitRounds (run nL nR true false ops).1).2 = [Elem.term]
-    ∧ c11Ok true (run nL nR true false ops).1 = true := by
-  obtain ⟨P, rs, cur, h1, h2, _, _, h3⟩ := run_shaped nL nR ops hc
-  rcases h3 with ⟨_, _, e3⟩ | ⟨e1, _, _⟩
-  · exact absurd hd e3
-  · have hs := splitRounds_shape rs h1 [Elem.term] (fun e he => by simp at he; subst he; rfl)
-    rw [e1]
-    refine ⟨by rw [hs], ?_⟩
-    unfold c11Ok
-    rw [hs]
-    cases rs with
-    | nil => simp [presented, ofSide]
-    | cons r1 rest =>
-      simp only [Bool.and_eq_true, List.all_eq_true, decide_eq_true_eq]
-      refine ⟨fun r hr => ?_, by simp [presented, ofSide]⟩
-      rw [h2 r (by simp [hr]), h2 r1 (by simp)]
+theorem cache_not_replayed_after_loop_end [DecidableEq α] (ch : Nat → Bool) (nL nR : Nat) (ops : List (Op α))
+    (hc : contractL nL nR ops = true) (hd : (run ch nL nR true false ops).2 = .done) :
+    (splitRounds (run ch nL nR true false ops).1).2 = [Elem.term]
+    ∧ c11Ok true (run ch nL nR true false ops).1 = true :=
+  shaped_after_end (run_shaped nL nR ops hc) hd
 
 /-- **No counter underflow.** A contract-respecting history never drives a `usize` counter of
     `process_side` below zero (the model's `panic` outcome). -/
-theorem contract_never_panics (nL nR : Nat) (ops : List (Op α)) (hc : contractL nL nR ops = true) :
-    (run nL nR true false ops).2 ≠ .panic := by
-  obtain ⟨_, _, _, _, _, _, h, _⟩ := run_shaped nL nR ops hc
-  exact h
+theorem contract_never_panics (ch : Nat → Bool) (nL nR : Nat) (ops : List (Op α))
+    (hc : contractL nL nR ops = true) : (run ch nL nR true false ops).2 ≠ .panic :=
+  shaped_no_panic (run_shaped nL nR ops hc)
+
+/-! ### The mirror image: RIGHT side cached
+
+  `contractR nL nR h`: the right side (`nR` replicas) sends one iteration and terminates, the left side
+  (`nL` replicas) is the loop side. Proof: the model commutes with the exchange of the two sides
+  (`State.swap`, `swapOp`, `swapEl`; Lemmas/BinaryStart.lean `select_swap`, `pump_swap`, `runFrom_swap`)
+  along every run that satisfies the left-cached invariant — the only asymmetric point of `select`
+  (branch order when BOTH sides have ended at the plain-receive branch) is never reached there
+  (`inv_sym`), and the unspecified choice of the two-sided `select` is covered by flipping the oracle. -/
+
+theorem cache_replayed_each_round_right (ch : Nat → Bool) (nL nR : Nat) (ops : List (Op α))
+    (hc : contractR nL nR ops = true) :
+    ∀ r ∈ (splitRounds (run ch nL nR false true ops).1).1,
+      presented false r = presented false ((splitRounds (run ch nL nR false true ops).1).1.headD []) :=
+  shaped_rounds_equal (run_shaped_right nL nR ops hc)
+
+theorem end_marker_once_each_round_right (ch : Nat → Bool) (nL nR : Nat) (ops : List (Op α))
+    (hc : contractR nL nR ops = true) :
+    ∀ r ∈ (splitRounds (run ch nL nR false true ops).1).1, markersR r = 1 :=
+  shaped_marker_once (run_shaped_right nL nR ops hc) markersR_presented
+
+theorem cache_not_replayed_after_loop_end_right [DecidableEq α] (ch : Nat → Bool) (nL nR : Nat)
+    (ops : List (Op α)) (hc : contractR nL nR ops = true) (hd : (run ch nL nR false true ops).2 = .done) :
+    (splitRounds (run ch nL nR false true ops).1).2 = [Elem.term]
+    ∧ c11Ok false (run ch nL nR false true ops).1 = true :=
+  shaped_after_end (run_shaped_right nL nR ops hc) hd
+
+theorem contract_never_panics_right (ch : Nat → Bool) (nL nR : Nat) (ops : List (Op α))
+    (hc : contractR nL nR ops = true) : (run ch nL nR false true ops).2 ≠ .panic :=
+  shaped_no_panic (run_shaped_right nL nR ops hc)
 
 /-- Non-vacuity: the witnesses below respect the contract. -/
 example :
@@ -131,6 +139,22 @@ example :
         ++ Op.b false 1 [.term] ++ Op.b false 0 [.term] : List (Op Nat)) = true := by
   decide
 
+/-- Non-vacuity of the right-cached theorems, and the unspecified choice: right side cached, the cached
+    batch and a loop-side batch are both in their channels when the first two-sided `select` runs; the
+    history respects `contractR`, and both resolutions of the choice give a correct (different) output. -/
+example :
+    let h : List (Op Nat) :=
+      [.enq false 0 [.item 41, .far, .term]] ++ Op.b true 0 [.item 5, .far] ++ Op.b true 0 [.item 6, .far]
+        ++ Op.b true 0 [.term]
+    contractR 1 1 h = true
+    ∧ run (fun _ => true) 1 1 false true h =
+        ([.item (.left 5), .item .leftEnd, .item (.right 41), .item .rightEnd, .far,
+          .item (.left 6), .item .leftEnd, .item (.right 41), .item .rightEnd, .far, .term], .done)
+    ∧ run (fun _ => false) 1 1 false true h =
+        ([.item (.right 41), .item .rightEnd, .item (.left 5), .item .leftEnd, .far,
+          .item (.left 6), .item .leftEnd, .item (.right 41), .item .rightEnd, .far, .term], .done) := by
+  decide
+
 /-- Former finding F6 (fixed by 6c83288), now the right output: left side cached with one replica
     (one element `41`), loop side with TWO replicas, one round, the batch that ends the round and
     the first `Terminate` are in the channel together. Nothing follows the `FlushAndRestart` but
@@ -139,9 +163,9 @@ example :
     let h : List (Op Nat) :=
       Op.b true 0 [.item 41, .far, .term] ++ Op.b false 0 [.far] ++ [.enq false 1 [.far]]
         ++ Op.b false 0 [.term] ++ Op.b false 1 [.term]
-    run 1 2 true false h =
+    run (fun _ => true) 1 2 true false h =
       ([.item (.left 41), .item .leftEnd, .item .rightEnd, .far, .term], .done)
-    ∧ c11Ok true (run 1 2 true false h).1 = true := by
+    ∧ c11Ok true (run (fun _ => true) 1 2 true false h).1 = true := by
   decide
 
 /-- Former finding F6 with the right side cached (mirror image). -/
@@ -149,9 +173,9 @@ example :
     let h : List (Op Nat) :=
       Op.b false 0 [.item 41, .far, .term] ++ Op.b true 0 [.far] ++ [.enq true 1 [.far]]
         ++ Op.b true 0 [.term] ++ Op.b true 1 [.term]
-    run 2 1 false true h =
+    run (fun _ => true) 2 1 false true h =
       ([.item (.right 41), .item .rightEnd, .item .leftEnd, .far, .term], .done)
-    ∧ c11Ok false (run 2 1 false true h).1 = true := by
+    ∧ c11Ok false (run (fun _ => true) 2 1 false true h).1 = true := by
   decide
 
 /-- Former finding F6b (fixed by 14727d5): ONE loop-side replica, every batch is followed by a pull
@@ -160,9 +184,9 @@ example :
 example :
     let h : List (Op Nat) :=
       Op.b true 0 [.item 41, .far, .term] ++ Op.b false 0 [.far] ++ Op.b false 0 [.term]
-    run 1 1 true false h =
+    run (fun _ => true) 1 1 true false h =
       ([.item (.left 41), .item .leftEnd, .item .rightEnd, .far, .term], .done)
-    ∧ c11Ok true (run 1 1 true false h).1 = true := by
+    ∧ c11Ok true (run (fun _ => true) 1 1 true false h).1 = true := by
   decide
 
 /-- Two loop-side replicas, two rounds, a receive timeout after every batch (also at both round
@@ -172,27 +196,28 @@ example :
       Op.b true 0 [.item 41, .far, .term] ++ Op.b false 0 [.far] ++ Op.b false 1 [.far]
         ++ Op.b false 1 [.item 5] ++ Op.b false 0 [.far] ++ Op.b false 1 [.far]
         ++ Op.b false 1 [.term] ++ Op.b false 0 [.term]
-    run 1 2 true false h =
+    run (fun _ => true) 1 2 true false h =
       ([.item (.left 41), .item .leftEnd, .item .rightEnd, .far,
         .item (.right 5), .item (.left 41), .item .leftEnd, .item .rightEnd, .far, .term], .done)
-    ∧ c11Ok true (run 1 2 true false h).1 = true := by
+    ∧ c11Ok true (run (fun _ => true) 1 2 true false h).1 = true := by
   decide
 
 /-- **C11 (the end is propagated once).** For every history from a state whose `Start` has not
     terminated (every parallelism, every interleaving, cached or not): `Terminate` occurs in the
     output at most once, only as the last element, and exactly when the run ended with `Terminate`
     (after which nothing is pulled). -/
-theorem cached_terminate_once (st : State α) (h : st.start.missingTerm ≠ 0) (i : Nat) (ops : List (Op α)) :
-    ((runFrom st i ops).2.2.1 ≠ .done ∧ Elem.term ∉ (runFrom st i ops).2.1.map (·.2))
-    ∨ ((runFrom st i ops).2.2.1 = .done
-        ∧ ∃ pre, (runFrom st i ops).2.1.map (·.2) = pre ++ [Elem.term] ∧ Elem.term ∉ pre) :=
+theorem cached_terminate_once (ch : Nat → Bool) (st : State α) (h : st.start.missingTerm ≠ 0) (i : Nat)
+    (ops : List (Op α)) :
+    ((runFrom ch st i ops).2.2.1 ≠ .done ∧ Elem.term ∉ (runFrom ch st i ops).2.1.map (·.2))
+    ∨ ((runFrom ch st i ops).2.2.1 = .done
+        ∧ ∃ pre, (runFrom ch st i ops).2.1.map (·.2) = pre ++ [Elem.term] ∧ Elem.term ∉ pre) :=
   runFrom_term ops st i h
 
 /-- **C11 (the cache is frozen, `_partial`).** Once the cached left side has received all its
     `Terminate`s a pull of any length leaves the cache as it is (so every later replay hands out the
     same batches). -/
 theorem cache_frozen_partial (st : State α) (hc : st.left.cached = true) (ht : st.left.missingTerm = 0)
-    (fuel : Nat) : (pump fuel st).1.left.cache = st.left.cache :=
+    (ch : Nat → Bool) (fuel : Nat) : (pump ch fuel st).1.left.cache = st.left.cache :=
   pump_leftDone_cache fuel st ⟨hc, ht, rfl⟩
 
 /-- **C11 (every replay is the whole cache, `_partial`).** In every state in which the receiver is
@@ -203,14 +228,14 @@ theorem cache_frozen_partial (st : State α) (hc : st.left.cached = true) (ht : 
     ended (`missing_flush_and_restart = 0`). Together with `cache_frozen_partial` this is why every
     round that replays presents identical content. Missing for full strength: see the header
     (which rounds replay, and how often — F6/F6b). -/
-theorem cache_replayed_each_round_partial (st : State α) (h : ReplayingL st) :
+theorem cache_replayed_each_round_partial (ch : Nat → Bool) (st : State α) (h : ReplayingL st) :
     let k := st.left.cache.length - st.left.cachePointer
-    (selectIter k st).2 = (st.left.cache.drop st.left.cachePointer).map (Sel.replay true)
-    ∧ (selectIter k st).1.qL = st.qL ∧ (selectIter k st).1.qR = st.qR
-    ∧ (selectIter k st).1.left.cache = st.left.cache
-    ∧ (selectIter k st).1.left.cachePointer = st.left.cache.length
-    ∧ (selectIter k st).1.left.missingFar = 0
-    ∧ (selectIter k st).1.right = st.right :=
+    (selectIter ch k st).2 = (st.left.cache.drop st.left.cachePointer).map (Sel.replay true)
+    ∧ (selectIter ch k st).1.qL = st.qL ∧ (selectIter ch k st).1.qR = st.qR
+    ∧ (selectIter ch k st).1.left.cache = st.left.cache
+    ∧ (selectIter ch k st).1.left.cachePointer = st.left.cache.length
+    ∧ (selectIter ch k st).1.left.missingFar = 0
+    ∧ (selectIter ch k st).1.right = st.right :=
   replayL_whole_cache _ st h rfl
 
 /-- **C09 (merge) / C11: without a cache nothing is lost, duplicated or reordered per side.** For every
@@ -218,9 +243,9 @@ theorem cache_replayed_each_round_partial (st : State α) (h : ReplayingL st) :
     (i.e. every prefix of a run before `Terminate`): the payloads sent on a side are exactly, in
     order, the payloads of that side in the output followed by those still waiting in the channel.
     (Per-iteration alignment of the `FlushAndRestart`s is checked by the oracle, not proved.) -/
-theorem bstart_nocache_conserves (nL nR : Nat) (ops : List (Op α))
-    (hidle : (runFrom (init nL nR false false) 0 ops).2.2.1 = .idle) :
-    let r := runFrom (init nL nR false false) 0 ops
+theorem bstart_nocache_conserves (ch : Nat → Bool) (nL nR : Nat) (ops : List (Op α))
+    (hidle : (runFrom ch (init nL nR false false) 0 ops).2.2.1 = .idle) :
+    let r := runFrom ch (init nL nR false false) 0 ops
     payloads true (r.2.1.map (·.2)) ++ pendL r.1 = sentPayloads true ops
     ∧ payloads false (r.2.1.map (·.2)) ++ pendR r.1 = sentPayloads false ops := by
   have := runFrom_conserves ops (init nL nR false false) 0 rfl rfl hidle
@@ -231,8 +256,8 @@ theorem bstart_nocache_conserves (nL nR : Nat) (ops : List (Op α))
 example :
     let h : List (Op Nat) :=
       Op.b true 0 [.item 1, .far] ++ [.enq true 0 [.term]] ++ Op.b false 0 [.item 2] ++ Op.b false 0 [.item 3, .far]
-    (runFrom (init 1 1 false false) 0 h).2.2.1 = .idle
-    ∧ (run 1 1 false false h).1 =
+    (runFrom (fun _ => true) (init 1 1 false false) 0 h).2.2.1 = .idle
+    ∧ (run (fun _ => true) 1 1 false false h).1 =
         [.item (.left 1), .item .leftEnd, .item (.right 2), .item (.right 3), .item .rightEnd, .far] := by
   decide
 
@@ -244,12 +269,12 @@ example :
       Op.b true 0 [.item 41] ++ Op.b false 0 [.item 1] ++ Op.b true 0 [.item 42, .far, .term]
         ++ [.enq false 0 [.far]] ++ Op.b false 0 [.item 2] ++ [.enq false 0 [.far]]
         ++ [.enq false 0 [.item 3, .far]] ++ Op.b false 0 [.term]
-    run 1 1 true false h =
+    run (fun _ => true) 1 1 true false h =
       ([.item (.left 41), .item (.right 1), .item (.left 42), .item .leftEnd, .item .rightEnd, .far,
         .item (.right 2), .item (.left 41), .item (.left 42), .item .leftEnd, .item .rightEnd, .far,
         .item (.right 3), .item .rightEnd, .item (.left 41), .item (.left 42), .item .leftEnd, .far,
         .term], .done)
-    ∧ c11Ok true (run 1 1 true false h).1 = true := by
+    ∧ c11Ok true (run (fun _ => true) 1 1 true false h).1 = true := by
   decide
 
 end Noir.BinaryStart
